@@ -52,6 +52,11 @@ func ChildBatch(args []string) int {
 		out.Write(js)
 		out.WriteString("\n")
 		out.Flush()
+		if r.Abort {
+			// a wallet of this process did not settle (its updater may spin): the parent starts a
+			// new child for the remaining cases
+			return 4
+		}
 	}
 	return 0
 }
@@ -122,7 +127,7 @@ func runChunk(dir string, k int, cases []*Case, res map[int]*Result, mu *sync.Mu
 			}
 			close(lines)
 		}()
-		current, done, hang := -1, 0, false
+		current, done, hang, aborted := -1, 0, false, false
 	loop:
 		for {
 			select {
@@ -145,7 +150,8 @@ func runChunk(dir string, k int, cases []*Case, res map[int]*Result, mu *sync.Mu
 				mu.Unlock()
 				done++
 				current = -1
-			case <-time.After(300 * time.Second):
+				aborted = r.Abort
+			case <-time.After(150 * time.Second):
 				hang = true
 				cmd.Process.Kill()
 				break loop
@@ -153,8 +159,12 @@ func runChunk(dir string, k int, cases []*Case, res map[int]*Result, mu *sync.Mu
 		}
 		err = cmd.Wait()
 		os.RemoveAll(base)
-		if err == nil && !hang && done == len(cases) {
+		if (err == nil || aborted) && !hang && done == len(cases) {
 			return nil
+		}
+		if aborted && !hang && current < 0 {
+			cases = cases[done:]
+			continue
 		}
 		if current < 0 || done >= len(cases) || cases[done].ID != current {
 			return fmt.Errorf("child failed outside a case: %v: %s", err, tail(stderr.String(), 800))
